@@ -411,7 +411,18 @@ def rule_1230(prog, res):
            "encode %s ; decode %s" % ({"%d%s" % (k[0], chr(k[1])): v for k, v in enc.items()}, {k: "%d%s" % (v[0], chr(v[1])) for k, v in dec.items()}), fe.loc,
            sample={"encode": {"%d%s" % (k[0], chr(k[1])): v for k, v in enc.items()}})
     # decode order i = 0..3 must equal ascending GLONASS MSM ids of those signals (the sort key in encode)
-    glo = sigtab.extract_to_id(prog, res, "msg::msm_mappings::glo::to_id", "Q-1230")
+    import engine as _engine
+    _probe = _engine.Result("probe")
+    glo = sigtab.extract_to_id(prog, _probe, "msg::msm_mappings::glo::to_id", "Q-1230")
+    if _probe.violations():
+        _ev = sigtab.tables_by_evaluation(prog, "glo")
+        if _ev is not None:
+            glo = _ev[1]
+            res.ob("Q-1230", "glo::to_id | table obtained by evaluation (the function is not written as a match)", True, _ev[2], None)
+        else:
+            glo = sigtab.extract_to_id(prog, res, "msg::msm_mappings::glo::to_id", "Q-1230")
+    else:
+        glo = sigtab.extract_to_id(prog, res, "msg::msm_mappings::glo::to_id", "Q-1230")
     oko = False
     if glo and len(dec) == 4:
         ids = [glo.get(dec[i]) for i in range(4)]
